@@ -59,6 +59,8 @@ type summary struct {
 	OtherSync      []string       `json:"other_sync_primitives_not_owned_by_simulator"`
 	FieldIDs       []string       `json:"field_ids"`
 	SkippedNonAddr int            `json:"accesses_skipped_not_addressable"`
+	MapRanges      int            `json:"map_range_loops_put_behind_the_tape"`
+	MapRangesLeft  []string       `json:"map_range_loops_not_rewritten"`
 }
 
 func fatal(f string, a ...interface{}) {
@@ -325,9 +327,85 @@ func (in *inserter) list(stmts []ast.Stmt) []ast.Stmt {
 			out = append(out, in.call(a))
 		}
 		in.descend(s)
+		if ls, ok := s.(*ast.LabeledStmt); ok {
+			if rs, ok := ls.Stmt.(*ast.RangeStmt); ok && in.isStringMap(rs.X) {
+				in.sum.MapRangesLeft = append(in.sum.MapRangesLeft, fmt.Sprintf("%s:%d (labeled)", in.fname, in.fset.Position(rs.Pos()).Line))
+			}
+		}
+		if rs, ok := s.(*ast.RangeStmt); ok && in.isStringMap(rs.X) {
+			out = append(out, in.rewriteMapRange(rs))
+			continue
+		}
 		out = append(out, s)
 	}
 	return out
+}
+
+func (in *inserter) isStringMap(e ast.Expr) bool {
+	tv, ok := in.info.Types[e]
+	if !ok {
+		return false
+	}
+	m, ok := tv.Type.Underlying().(*types.Map)
+	if !ok {
+		return false
+	}
+	b, ok := m.Key().Underlying().(*types.Basic)
+	if !ok || b.Kind() != types.String {
+		in.sum.MapRangesLeft = append(in.sum.MapRangesLeft, fmt.Sprintf("%s:%d (key type %s)", in.fname, in.fset.Position(e.Pos()).Line, m.Key()))
+		return false
+	}
+	return true
+}
+
+// rewriteMapRange turns
+//
+//	for k, v := range m { body }
+//
+// into an iteration over the keys in an order decided by the simulator (sorted,
+// then rotated by a tape-drawn amount), which is one of the orders Go permits:
+//
+//	{ verifM := m; for _, verifK := range verifMapKeys(verifM) { verifV, verifOK := verifM[verifK]; if !verifOK { continue }; k, v := verifK, verifV; body } }
+func (in *inserter) rewriteMapRange(rs *ast.RangeStmt) ast.Stmt {
+	in.sum.MapRanges++
+	id := func(n string) *ast.Ident { return ast.NewIdent(n) }
+	isBlank := func(e ast.Expr) bool {
+		if e == nil {
+			return true
+		}
+		i, ok := e.(*ast.Ident)
+		return ok && i.Name == "_"
+	}
+	var pre []ast.Stmt
+	pre = append(pre, &ast.AssignStmt{Lhs: []ast.Expr{id("verifV"), id("verifOK")}, Tok: token.DEFINE,
+		Rhs: []ast.Expr{&ast.IndexExpr{X: id("verifM"), Index: id("verifK")}}})
+	pre = append(pre, &ast.IfStmt{Cond: &ast.UnaryExpr{Op: token.NOT, X: id("verifOK")}, Body: &ast.BlockStmt{List: []ast.Stmt{&ast.BranchStmt{Tok: token.CONTINUE}}}})
+	pre = append(pre, &ast.AssignStmt{Lhs: []ast.Expr{id("_")}, Tok: token.ASSIGN, Rhs: []ast.Expr{id("verifV")}})
+	if !isBlank(rs.Key) || !isBlank(rs.Value) {
+		var lhs, rhs []ast.Expr
+		if !isBlank(rs.Key) {
+			lhs = append(lhs, rs.Key)
+			rhs = append(rhs, id("verifK"))
+		}
+		if !isBlank(rs.Value) {
+			lhs = append(lhs, rs.Value)
+			rhs = append(rhs, id("verifV"))
+		}
+		pre = append(pre, &ast.AssignStmt{Lhs: lhs, Tok: rs.Tok, Rhs: rhs})
+		if rs.Tok == token.DEFINE {
+			// silence "declared and not used" for variables the body ignores
+			for _, l := range lhs {
+				pre = append(pre, &ast.AssignStmt{Lhs: []ast.Expr{id("_")}, Tok: token.ASSIGN, Rhs: []ast.Expr{l}})
+			}
+		}
+	}
+	body := &ast.BlockStmt{List: append(pre, rs.Body.List...)}
+	loop := &ast.RangeStmt{Key: id("_"), Value: id("verifK"), Tok: token.DEFINE,
+		X: &ast.CallExpr{Fun: id("verifMapKeys"), Args: []ast.Expr{id("verifM")}}, Body: body}
+	return &ast.BlockStmt{List: []ast.Stmt{
+		&ast.AssignStmt{Lhs: []ast.Expr{id("verifM")}, Tok: token.DEFINE, Rhs: []ast.Expr{rs.X}},
+		loop,
+	}}
 }
 
 // descend instruments nested statement lists.
@@ -550,6 +628,7 @@ func genFile(fieldNames []string) string {
 package ggql
 
 import (
+	"sort"
 	"sync"
 	"unsafe"
 )
@@ -563,6 +642,9 @@ type VerifHook interface {
 	Unlocked(m unsafe.Pointer)
 	// Access is called before a statement that reads / writes a watched field.
 	Access(id int, addr func() unsafe.Pointer, write bool, site string)
+	// MapOrder decides the iteration order of a map with n > 1 keys: the sorted
+	// key list is rotated by the returned amount (0 <= r < n).
+	MapOrder(n int) int
 }
 
 // VerifSimHook is nil outside simulated runs: the instrumented package then
@@ -632,6 +714,22 @@ func (m *VerifRWMutex) RUnlock() {
 		return
 	}
 	m.mu.RUnlock()
+}
+
+// verifMapKeys replaces Go's randomised map iteration order by an order the
+// simulator decides (any order is permitted by the language).
+func verifMapKeys[K ~string, V any](m map[K]V) []K {
+	keys := make([]K, 0, len(m))
+	for k := range m {
+		keys = append(keys, k)
+	}
+	sort.Slice(keys, func(i, j int) bool { return keys[i] < keys[j] })
+	if h := VerifSimHook; h != nil && len(keys) > 1 {
+		if r := h.MapOrder(len(keys)); 0 < r && r < len(keys) {
+			keys = append(keys[r:], keys[:r]...)
+		}
+	}
+	return keys
 }
 
 func verifAccess(id int, addr func() unsafe.Pointer, write bool, site string) {
